@@ -549,6 +549,10 @@ func checkC14(c *Ctx, r *Report) {
 			}
 		}
 	}
+	// ---- R5
+	r.rule("C14.R5", "after delete(members, k) every path to return clears/re-elects the leader (store to leaderID, ensureLeader()), has checked leaderID != k, or deletes the whole group; startRebalance re-validates the leader unconditionally", 4)
+	checkLeaderAfterDelete(m, r, "C14.R5")
+
 	// ---- R4
 	ws := checkWriterTable(m, r, "C14.R4", tGroupState, "leaderID", false, map[string]string{
 		coord + "JoinGroup":                 "first joiner becomes leader",
